@@ -12,4 +12,4 @@ for d in sorted(os.listdir(root)):
     rate = m.get("detection_rate")
     print("| %s | %s | %s — *needs:* %s | %s | %s | %s |" % (
         d, m["property"], b[:220], n[:200], "yes" if m.get("caught_by_quick_check_before_strengthening") else "**no**",
-        ("yes" if now else "?") + (" (%s by %s)" % (rate, m.get("rate_measured_with")) if rate is not None else ""), (m.get("strengthening") or "—")[:260]))
+        ("yes" if now else ("**no**" if now is False else "?")) + (" (%s by %s)" % (rate, m.get("rate_measured_with")) if rate is not None else ""), (m.get("strengthening") or "—")[:260]))
